@@ -449,6 +449,19 @@ func subscribed(sp subSpec, target string, idx []string) bool {
 	return false
 }
 
+// settle lets every timer that is still armed at quiescence expire (virtual
+// time passes while nothing happens) and runs the system to quiescence again.
+// No send is in progress at that point, so on correct code no timer is armed
+// and this is a no-op; a send time-out left armed by an earlier response
+// (for instance one the ACL dropped) ends the call here, where the stream
+// oracles see it.
+func settle() {
+	vrt.Idle()
+	for vrt.FireAny() {
+		vrt.Idle()
+	}
+}
+
 func viol(out *xplore.Outcome, class, format string, a ...interface{}) {
 	out.Violations = append(out.Violations, xplore.Violation{Class: class, Msg: fmt.Sprintf(format, a...)})
 }
